@@ -36,6 +36,7 @@ type chunkQueue struct {
 	chunkAllocated map[uint32]bool            // chunks that have been allocated via Allocate()
 	chunkReturned  map[uint32]bool            // chunks returned via Next()
 	waiters        map[uint32][]chan<- uint32 // signals WaitFor() waiters about chunk arrival
+	rejected       func(p2p.ID) bool          // optional: reports senders the app has rejected
 }
 
 // newChunkQueue creates a new chunk queue for a snapshot, using a temp dir for storage.
@@ -68,6 +69,11 @@ func (q *chunkQueue) Add(chunk *chunk) (bool, error) {
 	defer q.Unlock()
 	if q.snapshot == nil {
 		return false, nil // queue is closed
+	}
+	if q.rejected != nil && q.rejected(chunk.Sender) {
+		// The app rejected this sender: a response that was still in flight
+		// must not be stored (DiscardSender only removes what is already here).
+		return false, nil
 	}
 	if chunk.Height != q.snapshot.Height {
 		return false, fmt.Errorf("invalid chunk height %v, expected %v", chunk.Height, q.snapshot.Height)
